@@ -171,6 +171,12 @@ theorem compact_valid (escape : Bool) (src out : Bytes) (h : compact escape src 
 example : compact true [0x20, 0x5B, 0x22, 0x3C, 0x22, 0x20, 0x5D, 0x0A] =
     .ok (some [0x5B, 0x22, 0x5C, 0x75, 0x30, 0x30, 0x33, 0x63, 0x22, 0x5D]) := by decide
 
+/-- **`compact` returns bytes exactly for the inputs `Valid` accepts** (for the others it returns
+    the scanner's error), with or without HTML escaping -/
+theorem compact_accepts_iff_valid (escape : Bool) (src : Bytes) :
+    (∃ out, compact escape src = .ok (some out)) ↔ valid src = .ok true :=
+  compact_some_iff escape src
+
 /-- the side condition of `marshal_valid_partial` on raw messages holds for every byte string -/
 theorem compactWritesValue_all (src : Bytes) : CompactWritesValue src :=
   fun esc out h => (Proofs.Json.compact_valid esc src out h).1
@@ -238,7 +244,19 @@ def C17_full : Prop :=
   marshal_full
   ∧ (∀ bs, valid bs = .ok true → isJson bs = true)                                   -- scanner_sound
   ∧ (∀ bs out esc, compact esc bs = .ok (some out) → isJson out = true)                -- compact
-  ∧ (∀ bs out p i, isJson bs = true → indent p i bs = .ok (some out) → isJson out = true)  -- indent
+  ∧ (∀ bs out p i, (∀ x ∈ p, isWs x = true) → (∀ x ∈ i, isWs x = true) →              -- indent
+      isJson bs = true → indent p i bs = .ok (some out) → isJson out = true)
+
+/-- the restriction to white-space prefix/indent strings in the last conjunct is necessary: like
+    encoding/json.Indent, `indent` copies `prefix` and `indent` verbatim -/
+theorem indent_needs_ws_prefix :
+    ¬ (∀ bs out p i, isJson bs = true → indent p i bs = .ok (some out) → isJson out = true) := by
+  intro h
+  have h1 : isJson [0x5B, 0x31, 0x5D] = true := by
+    simp [isJson, skipWs, isWs, value, arrTail, number, optMinus, intPart, isDigit, skipDigits, fracPart, expPart]
+  have h2 : indent [0x78] [] [0x5B, 0x31, 0x5D] = .ok (some [0x5B, 0x0A, 0x78, 0x31, 0x0A, 0x78, 0x5D]) := by decide
+  have h3 := h _ _ _ _ h1 h2
+  simp [isJson, skipWs, isWs, value, isDigit] at h3
 
 /-- the second and third conjunct of `C17_full` hold -/
 theorem C17_scanner_compact :
